@@ -495,6 +495,20 @@ class Blockwise(Expr):
         # We either have to create a new Align layer (ok) or combine divisions
         # and graph into a single operation.
         dependencies = self.dependencies()
+        args = [arg for arg in dependencies if not self._broadcast_dep(arg)]
+        if (
+            len(args) > 1
+            and all(arg.npartitions == 1 for arg in args)
+            and any(arg.divisions != args[0].divisions for arg in args)
+        ):
+            # Single partitions are combined as they are (pandas aligns them),
+            # the result can hold the labels of all of them
+            divisions = [d for arg in args for d in arg.divisions]
+            try:
+                return min(divisions), max(divisions)
+            except TypeError:
+                # unknown divisions or labels that can't be compared
+                return None, None
         for arg in dependencies:
             if not self._broadcast_dep(arg):
                 assert arg.divisions == dependencies[0].divisions
